@@ -4,6 +4,7 @@
 extern crate rdp;
 
 pub mod client;
+pub mod fault;
 pub mod gen;
 pub mod mon;
 pub mod props;
